@@ -1462,6 +1462,139 @@ Proof.
   vm_compute. intro H. discriminate.
 Qed.
 
+(* (d) RE-FRAGMENTED RETRANSMISSION (known finding K-C12-1; RFC 6347 4.2.3 / RFC 9147 5.5 ask receivers
+   to handle overlapping fragment ranges).  A 200-byte message is first sent in 100-byte fragments and
+   only [0,100) arrives; the sender then retransmits the WHOLE message in 150-byte fragments
+   ([0,150), [150,200)), as often as it likes, in any packing, under any epoch, with any junk in
+   between.  Fragments are keyed by offset and the first writer wins: [0,150) is dropped because
+   offset 0 is taken by the shorter fragment, the stored lengths sum to 100 or 150, never 200 -
+   the message is never delivered although every byte has arrived (some of them many times). *)
+Lemma run_wedged_on (W : state -> Prop) (R : record -> Prop) :
+  (forall st, W st -> pop st = PNone) ->
+  (forall st r, R r -> W st -> W (fst (push st r))) ->
+  forall rs st, Forall R rs -> W st ->
+    snd (fst (run st rs)) = [] /\ snd (run st rs) = false /\ W (fst (fst (run st rs))).
+Proof.
+  intros Hpop Hpush. induction rs as [|r rs IH]; intros st HR HW; [cbn; auto|].
+  inversion HR as [|? ? Hr HR']; subst.
+  cbn [run]. unfold arrive. pose proof (Hpush st r Hr HW) as H1.
+  destruct (push st r) as [st1 [[ish retr] err]]. cbn [fst] in H1.
+  destruct (err || negb ish).
+  - specialize (IH st1 HR' H1). destruct (run st1 rs) as [[st2 ms] p]. cbn [fst snd app orb] in *. exact IH.
+  - unfold drain. cbn [pop_all]. rewrite (Hpop st1 H1).
+    specialize (IH st1 HR' H1). destruct (run st1 rs) as [[st2 ms] p]. cbn [fst snd app orb] in *. exact IH.
+Qed.
+
+Lemma push_frags_fold_on (Q : state -> Prop) (P : frag -> Prop) ep :
+  (forall st b f, P f -> Q st -> Q (fst (push_frag ep (st, b) f))) ->
+  forall fs st b, Forall P fs -> Q st -> Q (fst (fold_left (push_frag ep) fs (st, b))).
+Proof.
+  intros Hstep. induction fs as [|f fs IH]; intros st b HP HQ; [exact HQ|].
+  inversion HP as [|? ? Hf HP']; subst.
+  cbn [fold_left]. destruct (push_frag ep (st, b) f) as [st1 b1] eqn:E.
+  apply IH; [exact HP'|]. specialize (Hstep st b f Hf HQ). now rewrite E in Hstep.
+Qed.
+
+Definition rt_msg : hmsg := mkMsg 11 0 (map N.of_nat (seq 1 200)).
+(* the one fragment of the first transmission that arrives *)
+Definition rt_first : frag := mkFrag 11 200 0 0 (map N.of_nat (seq 1 100)).
+(* every fragment of a record belongs to the 150-byte partition of rt_msg (junk records: vacuous) *)
+Definition rt_retransmission (r : record) : Prop :=
+  Forall (fun f => In f (split_msg 150 rt_msg)) (rec_frags r).
+
+Definition RtStuck (st : state) : Prop :=
+  cur st = 0 /\
+  exists e, clookup 0 (cache st) = Some e /\ e_hlen e = 200 /\ efind 0 (e_frags e) <> None /\
+            ((e_sum e = 100 /\ efind 150 (e_frags e) = None) \/
+             (e_sum e = 150 /\ efind 150 (e_frags e) <> None)).
+
+Lemma rt_stuck_pop st : RtStuck st -> pop st = PNone.
+Proof.
+  intros (Hc & e & Hl & Hh & _ & Hs). unfold pop. rewrite Hc, Hl.
+  destruct (e_sum e =? e_hlen e) eqn:E; [|reflexivity]. apply N.eqb_eq in E. lia.
+Qed.
+
+Lemma rt_stuck_push_frag ep st b f :
+  f_seq f = 0 -> 0 < f_flen f -> (f_off f = 0 \/ (f_off f = 150 /\ f_flen f = 50)) ->
+  RtStuck st -> RtStuck (fst (push_frag ep (st, b) f)).
+Proof.
+  intros Hq Hpos Hoff (Hc & e & Hl & Hh & H0 & Hs). unfold push_frag. rewrite Hq, Hc. cbn [N.ltb N.compare].
+  replace (skip_empty f) with false
+    by (unfold skip_empty; destruct (f_flen f =? 0) eqn:E; [apply N.eqb_eq in E; lia|reflexivity]).
+  rewrite Hl. destruct Hoff as [Ho|[Ho Hfl]]; rewrite Ho.
+  - destruct (efind 0 (e_frags e)) as [s0|] eqn:E0; [|contradiction].
+    cbn [fst]. split; [reflexivity|]. exists e. cbn [cache]. rewrite clookup_cset. cbn [N.eqb].
+    repeat split; try assumption. now rewrite E0.
+  - destruct Hs as [[Hs Hn]|[Hs Hn]].
+    + rewrite Hn. cbn [fst]. split; [reflexivity|]. eexists. cbn [cache]. rewrite clookup_cset. cbn [N.eqb].
+      split; [reflexivity|]. cbn [e_hlen e_frags e_sum]. split; [exact Hh|].
+      unfold efind in *. cbn [find].
+      replace (s_off (mkS f ep)) with 150 by (symmetry; exact Ho). cbn [N.eqb Pos.eqb].
+      split; [exact H0|]. right. split; [lia|discriminate].
+    + destruct (efind 150 (e_frags e)) as [s1|] eqn:E1; [|contradiction].
+      cbn [fst]. split; [reflexivity|]. exists e. cbn [cache]. rewrite clookup_cset. cbn [N.eqb].
+      repeat split; try assumption. right. split; [exact Hs|]. now rewrite E1.
+Qed.
+
+Lemma rt_stuck_push st r : rt_retransmission r -> RtStuck st -> RtStuck (fst (push st r)).
+Proof.
+  intros HR HW. destruct (push_fst_cases st r) as [->|(ep & fs & tail & Hr & _ & ->)]; [exact HW|].
+  subst r. unfold rt_retransmission in HR. cbn [rec_frags] in HR. unfold push_frags.
+  apply (push_frags_fold_on RtStuck (fun f => In f (split_msg 150 rt_msg)) ep); [|exact HR|exact HW].
+  intros st0 b f Hin H. apply rt_stuck_push_frag; [| | |exact H];
+    (vm_compute in Hin; destruct Hin as [<-|[<-|[]]]; vm_compute; auto).
+Qed.
+
+Theorem refragmented_retransmission_refuted :
+  In rt_first (split_msg 100 rt_msg) /\ cat_data (split_msg 150 rt_msg) = m_body rt_msg /\
+  (forall rs, Forall rt_retransmission rs -> snd (fst (run init (RHs 0 [rt_first] 0 :: rs))) = []).
+Proof.
+  split; [vm_compute; auto|]. split; [vm_compute; reflexivity|]. intros rs HR.
+  assert (H1 : arrive init (RHs 0 [rt_first] 0) =
+               (fst (fst (fst (arrive init (RHs 0 [rt_first] 0)))), (true, false, false), [], false))
+    by (vm_compute; reflexivity).
+  cbn [run]. rewrite H1.
+  assert (HW : RtStuck (fst (fst (fst (arrive init (RHs 0 [rt_first] 0)))))).
+  { split; [vm_compute; reflexivity|]. eexists. split; [vm_compute; reflexivity|].
+    split; [vm_compute; reflexivity|]. split; [vm_compute; discriminate|]. left. split; vm_compute; reflexivity. }
+  destruct (run_wedged_on RtStuck rt_retransmission rt_stuck_pop rt_stuck_push rs _ HR HW) as (Hp & _ & _).
+  destruct (run _ rs) as [[st2 ms] p]. cbn [fst snd app] in *. exact Hp.
+Qed.
+
+(* (e) EPOCH SPLICE (known finding K-C12-2).  The fragments of one message are not bound to one epoch:
+   the cache is keyed by message_seq only and Pop reports the epoch of the offset-0 fragment.  One
+   forged fragment in an unprotected epoch-0 record, stored before the genuine (protected, epoch 2)
+   fragment with the same offset arrives, takes that offset: the message surfaced as an epoch-2
+   message carries the forged bytes.  (C12_reassembly_safe assumes EVERY stored fragment is a genuine
+   slice; this is the witness that the premise is needed.) *)
+Definition es_msg : hmsg := mkMsg 11 0 [1; 2; 3; 4].
+Definition es_forged : frag := mkFrag 11 4 0 2 [238; 238].
+Definition es_history : list record :=
+  RHs 0 [es_forged] 0 :: map (fun f => RHs 2 [f] 0) (split_msg 2 es_msg).
+
+Theorem epoch_splice_refuted :
+  exists p, snd (fst (run init es_history)) = [p] /\ p_epoch p = 2 /\ p_seq p = m_seq es_msg /\
+            p_body p <> m_body es_msg /\ p_body p = [1; 2] ++ f_data es_forged.
+Proof.
+  eexists. split; [vm_compute; reflexivity|]. cbn [p_epoch p_seq p_body].
+  repeat split; try reflexivity. vm_compute. discriminate.
+Qed.
+
+(* (f) MTU NOT BOUNDED BY THE RECEIVER (known finding K-C12-3).  fragmentHandshake cuts by the configured
+   MTU only; the receiving side of the same library reads every datagram into inboundBufferSize
+   (8192) bytes.  With MTU 9000 a 9000-byte body is ONE fragment (within the MTU, as C12_split says)
+   whose record does not fit the peer's read buffer. *)
+Definition jumbo_msg : hmsg := mkMsg 11 0 (repeat 0 (N.to_nat 9000)).
+
+Theorem mtu_exceeds_read_buffer_refuted :
+  Forall (fun f => f_flen f <= 9000) (split_msg 9000 jumbo_msg) /\
+  exists f, In f (split_msg 9000 jumbo_msg) /\ g_inbound_buffer < rec_hdr + hs_hdr + f_flen f.
+Proof.
+  split.
+  - apply (proj1 (proj2 (proj2 (split_ok 9000 _ _ _ _ eq_refl)))).
+  - eexists. split; [vm_compute; left; reflexivity|]. vm_compute. reflexivity.
+Qed.
+
 (* ------------------------------------------------------------------ list-level restatements *)
 
 Lemma firstn_succ_nth {A} (d : A) : forall l k, (k < length l)%nat -> firstn (S k) l = firstn k l ++ [nth k l d].
